@@ -21,7 +21,7 @@ def obligations(tier, kind='inner', mode='rows', prefix='inner'):
     def add(nl, nr, **kw):
         c = {'nl': nl, 'nr': nr, 'kind': kind, 'mode': mode, 'K': 1, 'W': 1, 'ktype': 'int', 'spec': 'name'}
         c.update(kw)
-        tag = ','.join('%s=%s' % (k, c[k]) for k in ('K', 'W', 'ktype', 'spec') if (k in kw))
+        tag = ','.join('%s=%s' % (k, c[k]) for k in ('K', 'W', 'ktype', 'ktype2', 'spec', 'nones') if (k in kw))
         hs = c.pop('hashseed', 0)
         name = '%s[%dx%d%s%s]' % (prefix, nl, nr, (',' + tag) if tag else '', (',seed=%d' % hs) if 'seed' in kw or hs else '')
         big = (nl + nr >= 5) or c['K'] >= 2
